@@ -32,7 +32,8 @@ RULE = ("write stream (with, in a third of the cases, a `comments` argument: per
         "number_columns / specifiers / comments LEFT OUT of the call in ~30% so that the signature defaults True / ['data']*n / None run): "
         "1..4 tables (1..200 rows, an empty table only last; 1..30 columns) of int64 / float64 / text columns, in 30% of the cases with non-default row labels on every table "
         "(permuted as after sort_values, reversed, repeated as after pd.concat, strings, gaps as after remove_feature, constant): the file must hold the rows in the order of the table; "
-        "in 20% the tables are read back through the constructor Starfile(path) instead of Starfile.read; in 15% specifiers / comments are handed over as tuples; "
+        "labels incl. real RELION names of 25..33 characters, one of 60, and labels / a block name / text cells that Unicode normalisation would change (combining accents, ANGSTROM SIGN, OHM SIGN, ligature, superscript); "
+        "in 20% the tables are read back through the constructor Starfile(path) instead of Starfile.read (rewrite stream: every round of half of the cases); in 15% specifiers / comments are handed over as tuples; "
         "names from data_, data_particles, data_optics, data_general, data_stopgap_*, number_columns on/off; float cells from "
         "integers-as-floats, 1..9 decimals, values that change under round(6), half-way cases at the 7th decimal, tiny, 1e15..1e22, random mantissas up to 1e40, "
         "+-0; text cells printable ASCII or non-ASCII word characters (U+200B, U+180E, U+FEFF, letters, ...) without str.isspace characters/#, not starting with _, never empty, at least one cell per text column "
@@ -42,7 +43,8 @@ RULE = ("write stream (with, in a third of the cases, a `comments` argument: per
         "unrelated tables (20%), the same caller-owned list object written again with the other header style (20%); the caller's tables, list, specifiers and comments are compared before/after every call. "
         "remove stream: Starfile.remove_lines(path, positions as a list, (30%) a numpy integer array or (15%) a tuple, output_file or not, data_specifier None/present/absent, number_columns given or left out) on a written file of exactly-parsed cells; positions "
         "non-negative, distinct or repeated, 6% beyond the last row; a block other than the last keeps a row. "
-        "read stream: grammar-generated texts (see module docstring; integer tokens beyond 64 bits in 3% of the integer cells; 20% read through Starfile(path)); 2% of the later blocks directly follow the previous block's rows and 40% of the texts whose last block is empty and unfollowed end "
+        "read stream: grammar-generated texts (see module docstring; integer tokens beyond 64 bits in 3% of the integer cells; per integer COLUMN 2% hold a token of the unsigned 64-bit range beside non-negative ones and 2% beside a negative one = class C02-K5; "
+        "10% of the float tokens at full precision: 17 significant digits, fixed notation with 19..30 fractional digits -- the value pandas assigns is compared with float(token) as a correspondence matter only, tolerance max(4 ulp, 1e-12 relative, 1e-15 absolute) as measured; 20% read through Starfile(path)); 2% of the later blocks directly follow the previous block's rows and 40% of the texts whose last block is empty and unfollowed end "
         "without final newline -- both layouts are INSIDE the statement (blank/comment lines `may` separate blocks; `with or without final newline`) and the reader raises on them: open findings C02-K4 / C02-K3. "
         "malformed stream: one damage per text; a damaged text the independent tokenizer still reads as a STAR text of the statement is judged as such (spec), any other is OUTSIDE the quantifier "
         "(e.g. `1 2` / `3` under two labels: not `data blocks with one loop each` whose rows an independent tokenizer finds -- the reader drops the short row silently, theorem short_last_row_dropped; "
@@ -62,13 +64,19 @@ ASSUMPTIONS = [
 ]
 TRUSTED = ["harness independent STAR line tokenizer (props/c02.py indep_parse)", "Python builtins float(), str(), repr(), numpy.round used to evaluate the statement"]
 
-NAMES = ["data_", "data_particles", "data_optics", "data_general", "data_stopgap_motl", "data_stopgap_wedgelist", "data_stopgap_x1", "data_micrographs"]
+NAMES = ["data_", "data_particles", "data_optics", "data_general", "data_stopgap_motl", "data_stopgap_wedgelist", "data_stopgap_x1", "data_micrographs",
+         "data_stopgap_cafe\u0301"]  # a block name that Unicode normalisation would change (e + COMBINING ACUTE ACCENT)
 LABELS = ["rlnCoordinateX", "rlnCoordinateY", "rlnCoordinateZ", "rlnAngleRot", "rlnAngleTilt", "rlnAnglePsi", "rlnMicrographName", "rlnImageName",
           "rlnOpticsGroup", "rlnClassNumber", "rlnRandomSubset", "rlnOriginXAngst", "rlnTomoName", "motl_idx", "tomo_num", "object", "subtomo_num",
           "halfset", "orig_x", "orig_y", "orig_z", "score", "x_shift", "phi", "psi", "the", "class", "rlnCtfImage", "rlnPixelSize", "rlnVoltage",
-          "rlnDetectorPixelSize", "rlnMagnification", "a", "b", "x", "col", "_odd", "name.with.dots", "k-1"]
+          "rlnDetectorPixelSize", "rlnMagnification", "a", "b", "x", "col", "_odd", "name.with.dots", "k-1",
+          # real RELION labels of 25..33 characters, a 60-character one, and labels that are not NFC / NFKC stable (combining accent, ANGSTROM SIGN, ligature)
+          "rlnCtfDataAreCtfPremultiplied", "rlnTomoTiltSeriesPixelSize", "rlnTomoSubtomogramBinning", "rlnMicrographOriginalPixelSize", "rlnTomoImportFractionalDose",
+          "rlnTomoReconstructedTomogramHalf1", "rlnAccumMotionTotalOverAllFramesOfTheTiltSeriesInAngstroms_60", "re\u0301solution", "pixel\u212b", "pro\ufb01le"]
 TEXT_SURE = ["A", "B", "x", "mic_001.mrc", "tomo12/sub_3.em", "000012@stack.mrcs", "opticsGroup1", "halfA", "a.b.c", "K3-2021:07", "abc", "Zr", "foo/bar/baz_0001.mrc",
-             "very_long_file_name_of_a_tilt_series_TS_001.mrc", "q", "yes", "p'q", "\"quoted\"", "a=b", "[1,2]", "x_", "l00p_", "loop", "Loop_", "loop__", "data_x", "-x", "x-1", "1x", "e5x"]
+             "very_long_file_name_of_a_tilt_series_TS_001.mrc", "q", "yes", "p'q", "\"quoted\"", "a=b", "[1,2]", "x_", "l00p_", "loop", "Loop_", "loop__", "data_x", "-x", "x-1", "1x", "e5x",
+             # not stable under Unicode normalisation (a file name typed on macOS arrives decomposed): the cell must come back character for character
+             "cafe\u0301.mrc", "A\u030angstro\u0308m_1", "grid_\u212b2", "\u2126mega", "\ufb01le_1.mrc", "x\u00b2", "\u1e9b\u0323"]
 TEXT_AMBIG = ["nan", "NaN", "inf", "-inf", "Infinity", "1_0", "0x10", "1d5", "--1", "1e", "e5", ".", "-", "+", "1.2.3", "True", "None", "NA", "N/A", "1,5", "1f", "5j", "1e400",
               "12", "-3", "4.5", "1e5", ".5", "7.", "+2", "0012", "1E-3"]
 INF_SPELLINGS = ["inf", "-inf", "+inf", "Inf", "INF", "iNf", "infinity", "Infinity", "-Infinity", "+INFINITY", "-iNfInItY"]
@@ -609,6 +617,9 @@ def translate(src):
     # the parser half and the never-executed-before branches: normalised dumps of whole bodies (G5); signature defaults (G1)
     PARSER = ["Token.parse_specifier", "Token.parse_columns", "Token.parse_column", "Token.parse_rows", "Token.check", "Token.consume",
               "Token.check_then_consume", "Token.lookahead", "Starfile.read", "Starfile._to_numeric_if_possible", "Starfile.remove_lines"]
+    # round 7: the constructors and the WHOLE writer (nested defs, statements before / after the `with`, the row loop body)
+    WHOLE = [("Token.__init__", "token_init"), ("Starfile.__init__", "starfile_init"), ("Starfile.write", "write")]
+    whole = [(nm, src.anchor(q + ":body", lambda q=q: _dump(src.find(rel, q))) or "") for q, nm in WHOLE]
     bodies = []
     for q in PARSER:
         bodies.append((q, src.anchor(q.split(".")[-1] + ":body", lambda q=q: _dump(src.find(rel, q))) or ""))
@@ -722,6 +733,7 @@ def removeLinesNumberColumnsDefault : Bool := {"true" if ncd2 else "false"}
 def body_tokenize : String := {core.lean_str(tkb)}
 -- normalised whole-body dumps of the parser half, the read loop, the numeric conversion and remove_lines (locals renamed v0, v1, ...; messages dropped)
 {chr(10).join(f"def body_{q.split('.')[-1].lstrip('_')} : String := {core.lean_str(b)}" for q, b in bodies)}
+{chr(10).join(f"def body_{nm} : String := {core.lean_str(b)}" for nm, b in whole)}
 end CryoCat.Gen.C02
 """
 
@@ -841,7 +853,8 @@ def _int_value(rng):
 
 
 # characters str.isspace() REJECTS although they look like (or once were) spaces, and other non-ASCII letters / signs: word characters
-NON_SPACE = ["\u200b", "\u180e", "\ufeff", "\u00ad", "\u2060", "\u00b5", "\u00e9", "\u00c5", "\u03b1", "\u65e5", "\u00b0", "\u2212", "\u0663", "\U0001f600"]
+NON_SPACE = ["\u200b", "\u180e", "\ufeff", "\u00ad", "\u2060", "\u00b5", "\u00e9", "\u00c5", "\u03b1", "\u65e5", "\u00b0", "\u2212", "\u0663", "\U0001f600",
+             "e\u0301", "\u212b", "\u2126", "\ufb01", "\u00b2", "\u0301"]  # the last six change under NFC / NFKC normalisation (combining accent, singletons, compatibility characters)
 UNI_SPACES = ["\x1c", "\x1d", "\x1e", "\x1f", "\x85", "\xa0", "\u1680", "\u2000", "\u2003", "\u200a", "\u2028", "\u2029", "\u202f", "\u205f", "\u3000"]
 
 
@@ -1038,6 +1051,9 @@ def gen_rewrite(rng, tier):
         for k in ("data_id", "specifier"):
             b.pop(k, None)
         steps.append(b)
+    if rng.random() < 0.5:  # every round is read back through the constructor Starfile(path): a cache behind it shows on the second round
+        for st in steps:
+            st["ctor"] = True
     return dict(kind="rewrite", mode=mode, steps=steps)
 
 
@@ -1117,19 +1133,25 @@ def _listed(fid):
 
 
 _K5_LISTED = _listed("C02-K5")
+UINT64_TOKENS = ["9223372036854775808", "18446744073709551615", "+9223372036854775808"]
 
 
 def _read_token(rng, kind):
     if kind == "int":
         if rng.random() < 0.03:  # beyond 64 bits (either sign): pandas keeps them as Python ints
             return rng.choice(["18446744073709551616", "-9223372036854775809", "123456789012345678901234567890", "+36893488147419103232", "-18446744073709551616"])
-        if _K5_LISTED and rng.random() < 0.04:  # the unsigned 64-bit range: class of finding C02-K5 when a negative integer shares the column
-            return rng.choice(["9223372036854775808", "18446744073709551615", "+9223372036854775808"])
         return rng.choice([str(rng.randint(-500, 5000)), "0", "+7", "0012", str(rng.randint(-10 ** 9, 10 ** 9))])
     if kind == "float":
         k = rng.random()
-        if k < 0.6:
+        if k < 0.5:
             return repr(round(rng.uniform(-400, 400), rng.randint(1, 6)))
+        if k < 0.6:  # full-precision tokens: 17 significant digits in repr / exponent form, long fixed notation in 1e-5 .. 1e-3, 19 .. 30 fractional digits
+            m = rng.random()
+            if m < 0.4:
+                return repr(rng.choice([-1, 1]) * rng.uniform(1, 10) * 10.0 ** rng.randint(-8, 22))
+            if m < 0.7:
+                return "%.*f" % (rng.randint(19, 22), rng.uniform(1e-5, 1e-3))
+            return "%.*f" % (rng.randint(19, 30), rng.uniform(-400, 400))
         if k < 0.64:  # numbers for pandas.to_numeric and for the model (`isInfTok`)
             return rng.choice(INF_SPELLINGS)
         return rng.choice(["1.", ".5", "-0.0", "1e5", "1E-3", "2.5e+10", "-.25", "3.141593", "0.000000", "180.000000", "1e-05", "+0.5", "-12.e2"])
@@ -1159,6 +1181,17 @@ def gen_read(rng, tier):
                 col = _text_column(rng, nrows)
             else:
                 col = [_read_token(rng, kd) for _ in range(nrows)]
+                if kd == "int" and nrows:
+                    # the unsigned 64-bit range is decided per COLUMN: ~2 % of the integer columns hold such a token beside non-negative
+                    # ones (a legitimate uint64 column), ~2 % beside a negative one (class of finding C02-K5, once it is listed)
+                    k = rng.random()
+                    if k < 0.04:
+                        col = [t.lstrip("-") if INT_RE.match(t) and int(t) < 0 else t for t in col]
+                        col[rng.randrange(nrows)] = rng.choice(UINT64_TOKENS)
+                        if k < 0.02 and _K5_LISTED and nrows >= 2:
+                            i = rng.choice([i for i, t in enumerate(col) if t not in UINT64_TOKENS] or [0])
+                            if col[i] not in UINT64_TOKENS:
+                                col[i] = str(-rng.randint(1, 5000))
             cells.append(col)
         rows = [[cells[j][i] for j in range(ncols)] for i in range(nrows)]
         style = rng.choice(["relion", "relion", "plain", "mixed"])
@@ -1662,9 +1695,18 @@ def _inf_like(t):
     return t.lower().lstrip("+-") in ("inf", "infinity")
 
 
+REL_PARSE, ABS_PARSE = 1e-12, 1e-15
+
+
 def _same_number(a, b):
-    """pandas.to_numeric is not always correctly rounded (e.g. '3.3e+100' -> 3.2999999999999997e+100): allow ULP_PARSE ulp (derivation there)"""
-    return a == b or (math.isfinite(a) and math.isfinite(b) and abs(a - b) <= ULP_PARSE * math.ulp(a))
+    """the value pandas.to_numeric assigns to a token of a READ text against float(token). The statement has no value clause for read
+    texts ("numeric columns as numbers"), so a difference is a correspondence matter (kind corr), and the tolerance is what pandas
+    really does (measured on pandas 3.0.6, 100 000 tokens per shape): not correctly rounded -- up to 3 ulp on 17-digit mantissas
+    (ULP_PARSE) -- and its parser keeps only about 17 digit CHARACTERS counted from the first digit of the token, leading zeros of
+    a fixed-notation fraction included: '0.0001430206016712772' comes back 6.3e-13 relative off, '0.00001005771772819408' 9.4e-12,
+    '0.000000100192927498996' 1e-9, i.e. an ABSOLUTE error of up to 1e-16 for |x| < 1, while tokens of 40 digits above 1 are exact
+    to 4e-16 relative. Allowed: ULP_PARSE ulp, or 1e-12 relative, or 1e-15 absolute, whichever is largest."""
+    return a == b or (math.isfinite(a) and math.isfinite(b) and abs(a - b) <= max(ULP_PARSE * math.ulp(a), REL_PARSE * abs(a), ABS_PARSE))
 
 
 def _cmp_frames_with_tokens(read, blocks, clause_prefix, kind):
@@ -1701,7 +1743,8 @@ def _cmp_frames_with_tokens(read, blocks, clause_prefix, kind):
                 vals = fr["data"][j] if k == "int" else [b2f(x) for x in fr["data"][j]]
                 for i, (t, v) in enumerate(zip(toks, vals)):
                     if not (k == "int" and not _inf_like(t) and int(t) == v) and not _same_number(float(t), float(v)):
-                        out.append(dict(kind=kind, clause=clause_prefix + "-numeric-value", detail=f"block {bi} column {c} row {i}: token {t!r} read as {v!r}")); break
+                        # never `spec`: the statement fixes no value for the tokens of a read text (for written files the value clause is judged by _judge_frames)
+                        out.append(dict(kind="corr", clause=clause_prefix + "-numeric-value", detail=f"block {bi} column {c} row {i}: token {t!r} read as {v!r} (float(token) = {float(t)!r})")); break
             else:
                 if k != "text":
                     out.append(dict(kind=kind, clause=clause_prefix + "-text-column-as-number", detail=f"block {bi} column {c}: tokens {toks[:4]} read as {k}")); continue
@@ -1744,6 +1787,7 @@ def _judge_file_text(text, blocks, names, r6=None):
             out.append(dict(kind="spec", clause="file-labels", detail=f"block {bi}: file {fb['cols']}, table {b['cols']}")); continue
         if len(fb["rows"]) != n:
             out.append(dict(kind="spec", clause="file-row-count", detail=f"block {bi}: file {len(fb['rows'])}, table {n}")); continue
+        nbad = 0
         for j, (t, col) in enumerate(zip(b["types"], b["data"])):
             for i, v in enumerate(col):
                 tok = fb["rows"][i][j]
@@ -1751,11 +1795,10 @@ def _judge_file_text(text, blocks, names, r6=None):
                     good = (tok == v) if t == "text" else (int(tok) == v) if t == "int" else verdict[(bi, j, i)] if (bi, j, i) in verdict else _close_after_round(b2f(v), float(tok), 0)
                 except ValueError:
                     good = False
-                if not good:
-                    out.append(dict(kind="spec", clause="file-cell", detail=f"block {bi} column {b['cols'][j]} row {i}: table holds {v if t != 'float' else b2f(v)!r}, file holds {tok!r}")); break
-            else:
-                continue
-            break
+                if not good:  # every bad cell is reported (at most 40 per block): a defect beside a cell of a known finding must not hide behind it
+                    nbad += 1
+                    if nbad <= 40:
+                        out.append(dict(kind="spec", clause="file-cell", detail=f"block {bi} column {b['cols'][j]} row {i}: table holds {v if t != 'float' else b2f(v)!r}, file holds {tok!r}"))
     return out
 
 
@@ -1781,19 +1824,19 @@ def _judge_frames(rd, blocks, names):
             if t == "text":
                 if k != "text" or got != col:
                     i = next((i for i, (a, v) in enumerate(zip(got, col)) if a != v), 0)
-                    out.append(dict(kind="spec", clause="readback-text", detail=f"block {bi} column {b['cols'][j]} row {i}: written {col[i]!r}, read {got[i]!r} (column read as {k}, dtype {dt})")); break
+                    out.append(dict(kind="spec", clause="readback-text", detail=f"block {bi} column {b['cols'][j]} row {i}: written {col[i]!r}, read {got[i]!r} (column read as {k}, dtype {dt})")); continue
             else:
                 if k not in ("int", "float"):
-                    out.append(dict(kind="spec", clause="readback-number-as-text", detail=f"block {bi} column {b['cols'][j]}: numeric column read as {k} (dtype {dt}): {got[:3]}")); break
+                    out.append(dict(kind="spec", clause="readback-number-as-text", detail=f"block {bi} column {b['cols'][j]}: numeric column read as {k} (dtype {dt}): {got[:3]}")); continue
                 if t == "int" and k != "int":  # G3: an integer column must come back integer-typed
-                    out.append(dict(kind="spec", clause="readback-integer-as-float", detail=f"block {bi} column {b['cols'][j]}: integer column read with dtype {dt}: {[b2f(x) for x in got[:3]]}")); break
+                    out.append(dict(kind="spec", clause="readback-integer-as-float", detail=f"block {bi} column {b['cols'][j]}: integer column read with dtype {dt}: {[b2f(x) for x in got[:3]]}")); continue
                 if t == "float" and k != "float":
-                    out.append(dict(kind="corr", clause="readback-float-as-integer", detail=f"block {bi} column {b['cols'][j]}: float column read with dtype {dt} (the model prints every float with a `.`/exponent)")); break
+                    out.append(dict(kind="corr", clause="readback-float-as-integer", detail=f"block {bi} column {b['cols'][j]}: float column read with dtype {dt} (the model prints every float with a `.`/exponent)")); continue
                 vals = got if k == "int" else [b2f(x) for x in got]
                 orig = col if t == "int" else [b2f(x) for x in col]
-                bad = next((i for i, (a, v) in enumerate(zip(vals, orig)) if not ((a == v) if t == "int" else _close_after_round(v, float(a), ULP_PARSE))), None)
-                if bad is not None:
-                    out.append(dict(kind="spec", clause="readback-number", detail=f"block {bi} column {b['cols'][j]} row {bad}: written {orig[bad]!r}, read {vals[bad]!r}")); break
+                # every bad cell of every column is reported (at most 40 per column): a defect beside a cell of a known finding must not hide behind it
+                for bad in [i for i, (a, v) in enumerate(zip(vals, orig)) if not ((a == v) if t == "int" else _close_after_round(v, float(a), ULP_PARSE))][:40]:
+                    out.append(dict(kind="spec", clause="readback-number", detail=f"block {bi} column {b['cols'][j]} row {bad}: written {orig[bad]!r}, read {vals[bad]!r}"))
     return out
 
 
@@ -2421,6 +2464,7 @@ LEVEL_TEXT = ("Lean 4 theorems about an executable model of Token.tokenize / par
               "decimal-point position denotes digits*10^(decpt-len), whichever form), round6Ok_iff (the checker run on every written float cell decides Round6Spec), written_value_meets_clause, round6Cell_documented "
               "(float_precision read from the source), the witnesses loop_cell_breaks_roundtrip (open finding C02-K1), inf_cell_never_meets_clause (C02-K2), uint64_with_negative_is_numeric (proposed C02-K5), "
               "nan_cell_reads_as_text, short_last_row_dropped and empty_block_not_last_breaks; the model is tied to the source by 46 "
+              "(49 since round 7: whole-body dumps of Starfile.write, Starfile.__init__ and Token.__init__ -- writer_body_documented, constructors_documented) "
               "regenerated literals/write-order/signature/whole-body anchors insensitive to renamed locals, added type annotations and reworded messages (tokenizer_literals_documented, tokenizer_body_documented, "
               "writer_literals_documented, writer_rows_documented, comments_and_selection_documented, signature_defaults_documented, parser_documented, remove_lines_documented); the cell format spec "
               "(fill, alignment, width) and float_precision are READ by the model (padCell, round6Cell) "
